@@ -1,0 +1,79 @@
+//go:build verif
+
+package nebula
+
+import (
+	"net/netip"
+	"slices"
+	"sync/atomic"
+)
+
+// Verification seams, compiled only with -tags verif (see /verif/DESIGN.md).
+// They exist so that a deterministic simulator can own every source of
+// nondeterminism: goroutine interleaving (verifYield / verifLockPoint) and
+// randomised map iteration order (verifSort*). With the tag off every function
+// in verif_hooks_off.go is an empty, inlinable no-op.
+
+// verifYieldHook, when set, is called at instrumented points with a site name.
+var verifYieldHook atomic.Pointer[func(site string)]
+
+func verifYield(site string) {
+	if h := verifYieldHook.Load(); h != nil {
+		(*h)(site)
+	}
+}
+
+type verifTryLocker interface {
+	TryLock() bool
+	Unlock()
+}
+
+type verifTryRLocker interface {
+	TryRLock() bool
+	RUnlock()
+}
+
+// verifLockPoint is called right before l.Lock(): under a simulator it yields
+// until the lock is free, so a goroutine parked while holding l never makes
+// another one block for real.
+func verifLockPoint(site string, l verifTryLocker) {
+	h := verifYieldHook.Load()
+	if h == nil {
+		return
+	}
+	(*h)(site)
+	for !l.TryLock() {
+		(*h)("blocked:" + site)
+	}
+	l.Unlock()
+}
+
+func verifRLockPoint(site string, l verifTryRLocker) {
+	h := verifYieldHook.Load()
+	if h == nil {
+		return
+	}
+	(*h)(site)
+	for !l.TryRLock() {
+		(*h)("blocked:" + site)
+	}
+	l.RUnlock()
+}
+
+func verifSortRelays(r []*Relay) {
+	slices.SortFunc(r, func(a, b *Relay) int {
+		if a.LocalIndex != b.LocalIndex {
+			if a.LocalIndex < b.LocalIndex {
+				return -1
+			}
+			return 1
+		}
+		return a.PeerAddr.Compare(b.PeerAddr)
+	})
+}
+
+func verifSortAddrs(a []netip.Addr) {
+	slices.SortFunc(a, func(x, y netip.Addr) int { return x.Compare(y) })
+}
+
+func verifSortU32(a []uint32) { slices.Sort(a) }
